@@ -19,7 +19,7 @@ EXTENDS Interp, Props, Json
 
 P == INSTANCE Parse
 
-CONSTANTS Ptrs, PipeBases
+CONSTANTS Ptrs, PipeBases, PipeAlpha    \* PipeAlpha: "small" | "full"
 
 N1(x) == <<x>>
 I(n) == P!X_EInt(NumInt(n))
@@ -70,11 +70,17 @@ BaseTexts == <<
         <<P!X_Field(P!NoAttrs, "pub", "e", U("E")), P!X_Field(P!NoAttrs, "pub", "n", P!X_Arr(U("u8"), NumInt(3)))>>))>>)
 >>
 
-Alpha == <<P!Pu("#"), P!Pu("["), P!Pu("]"), P!Pu("("), P!Pu(")"), P!Pu(","), P!Pu(":"), P!Pu("_"), P!Kw("pub"),
+AlphaSmall == <<P!Pu("#"), P!Pu("["), P!Pu("]"), P!Pu("("), P!Pu(")"), P!Pu(","), P!Pu(":"), P!Pu("_"), P!Kw("pub"),
            P!Id("size"), P!Id("align"), P!Id("address"), P!Id("packed"), P!Id("base"), P!Id("index"), P!Id("u8"), P!Id("u64"), P!Id("T"),
            P!Id("copyable"), P!Id("cloneable"), P!Id("default"),
            P!In(NumInt(0)), P!In(NumInt(1)), P!In(NumInt(3)), P!In(NumInt(4)), P!In(NumInt(8)), P!In(NumInt(16)), P!In(NumInt(0 - 8)),
            P!St("thiscall"), P!St("pascal")>>
+Alpha == IF PipeAlpha = "small" THEN AlphaSmall
+         ELSE AlphaSmall \o <<P!Pu("{"), P!Pu("}"), P!Pu(";"), P!Pu("="), P!Pu("<"), P!Pu(">"), P!Pu("*"), P!Pu("&"), P!Pu("!"),
+                               P!Kw("const"), P!Kw("mut"), P!Kw("type"), P!Kw("enum"), P!Kw("fn"), P!Kw("self"),
+                               P!Id("singleton"), P!Id("defaultable"), P!Id("calling_convention"), P!Id("doc"), P!Id("vftable"), P!Id("unknown"),
+                               P!Id("u16"), P!Id("u32"), P!Id("E"), P!Id("X"),
+                               P!In(NumInt(2)), P!In(NumInt(12)), P!In(NumInt(24)), P!In(NumInt(32)), P!In(NumInt(64)), P!St(" doc line")>>
 
 (* the bracket that closes the attribute opened by the `#` at i (0 when i opens none) *)
 RECURSIVE CloseFrom(_, _, _)
